@@ -50,23 +50,24 @@ func envOr(k, d string) string {
 
 // EngineDef describes one harness (engines.json).
 type EngineDef struct {
-	Name       string            `json:"name"`
-	Pkg        string            `json:"pkg"`   // package (relative to repo) the test binary is built from
-	Files      map[string]string `json:"files"` // /verif-relative source -> /repo-relative overlay target
-	Instrument []string          `json:"instrument,omitempty"`
-	Exclude    []string          `json:"exclude_sites,omitempty"`
-	ExtraYield []string          `json:"extra_yield,omitempty"`
-	PerfStub   bool              `json:"perf_stub,omitempty"`
-	Props      []string          `json:"props"`
-	Ready      bool              `json:"ready,omitempty"` // reviewed and registered in MANIFEST.json (setup builds only these)
-	Porcupine  bool              `json:"porcupine,omitempty"`
-	Level      map[string]string `json:"level,omitempty"` // prop -> evidence level (default exploration)
-	Real       []string          `json:"real_components,omitempty"`
-	Stubbed    []string          `json:"stubbed_components,omitempty"`
-	Rule       string            `json:"rule,omitempty"`
-	Assume     []string          `json:"assumptions,omitempty"`
-	QuickS     float64           `json:"quick_seconds,omitempty"`
-	ThoroughS  float64           `json:"thorough_seconds,omitempty"`
+	Name        string            `json:"name"`
+	Pkg         string            `json:"pkg"`   // package (relative to repo) the test binary is built from
+	Files       map[string]string `json:"files"` // /verif-relative source -> /repo-relative overlay target
+	Instrument  []string          `json:"instrument,omitempty"`
+	Exclude     []string          `json:"exclude_sites,omitempty"`
+	ExtraYield  []string          `json:"extra_yield,omitempty"`
+	AfterUnlock bool              `json:"yield_after_unlock,omitempty"` // scheduling point after every explicit Unlock()/RUnlock() statement
+	PerfStub    bool              `json:"perf_stub,omitempty"`
+	Props       []string          `json:"props"`
+	Ready       bool              `json:"ready,omitempty"` // reviewed and registered in MANIFEST.json (setup builds only these)
+	Porcupine   bool              `json:"porcupine,omitempty"`
+	Level       map[string]string `json:"level,omitempty"` // prop -> evidence level (default exploration)
+	Real        []string          `json:"real_components,omitempty"`
+	Stubbed     []string          `json:"stubbed_components,omitempty"`
+	Rule        string            `json:"rule,omitempty"`
+	Assume      []string          `json:"assumptions,omitempty"`
+	QuickS      float64           `json:"quick_seconds,omitempty"`
+	ThoroughS   float64           `json:"thorough_seconds,omitempty"`
 }
 
 func loadEngines() ([]*EngineDef, error) {
@@ -178,7 +179,7 @@ func build(e *EngineDef, wd string, patch string) (string, *instrStats, error) {
 	}
 	instDir := filepath.Join(wd, "inst")
 	_ = os.MkdirAll(instDir, 0o755)
-	st, err := instrumentAll(repoDir, instDir, e.Instrument, e.Exclude, e.ExtraYield, resolve, overlay)
+	st, err := instrumentAll(repoDir, instDir, e.Instrument, e.Exclude, e.ExtraYield, e.AfterUnlock, resolve, overlay)
 	if err != nil {
 		return "", nil, err
 	}
@@ -776,29 +777,29 @@ func checkOne(o checkOpts, e *EngineDef) (int, map[string]any, int) {
 			"rule": "each evaluation is one simulated run: plan = generate(mix(VERIF_SEED, property, index)) executed under the token-passing scheduler in a synctest bubble; " +
 				"a run is non-trivial when it executed >=1 workload operation and >=1 oracle evaluation; two runs are distinct when the hash of their full event log " +
 				"(every scheduler step (actor, site), every delivered event, injected fault and canonical quiescent state) differs. " + e.Rule,
-			"samples":               agg.Samples,
-			"nontrivial_runs":       agg.Nontrivial,
-			"fault_free_runs":       agg.FaultFree,
-			"runs_per_hour":         int(float64(agg.Runs) / runWall * 3600),
-			"seeds":                 []uint64{o.seed},
-			"sim_time_s":            float64(agg.Stats.SimNanos) / 1e9,
-			"faults_fired":          agg.Stats.Faults,
-			"faultable_calls":       agg.Stats.FaultCalls,
-			"probes":                agg.Stats.Probes,
-			"scheduler_steps":       agg.Stats.Steps,
-			"context_switches":      agg.Stats.Switches,
-			"workload_ops":          agg.Stats.Ops,
-			"workload_ops_skipped":  agg.Stats.OpsSkipped,
-			"oracle_evaluations":    agg.Stats.OracleEvals,
-			"max_actors":            agg.Stats.MaxActors,
-			"workers":               W,
-			"real_components":       e.Real,
-			"stubbed_components":    e.Stubbed,
-			"instrumented_lock_sites": ist.Locks,
+			"samples":                  agg.Samples,
+			"nontrivial_runs":          agg.Nontrivial,
+			"fault_free_runs":          agg.FaultFree,
+			"runs_per_hour":            int(float64(agg.Runs) / runWall * 3600),
+			"seeds":                    []uint64{o.seed},
+			"sim_time_s":               float64(agg.Stats.SimNanos) / 1e9,
+			"faults_fired":             agg.Stats.Faults,
+			"faultable_calls":          agg.Stats.FaultCalls,
+			"probes":                   agg.Stats.Probes,
+			"scheduler_steps":          agg.Stats.Steps,
+			"context_switches":         agg.Stats.Switches,
+			"workload_ops":             agg.Stats.Ops,
+			"workload_ops_skipped":     agg.Stats.OpsSkipped,
+			"oracle_evaluations":       agg.Stats.OracleEvals,
+			"max_actors":               agg.Stats.MaxActors,
+			"workers":                  W,
+			"real_components":          e.Real,
+			"stubbed_components":       e.Stubbed,
+			"instrumented_lock_sites":  ist.Locks,
 			"instrumented_yield_sites": ist.Yields,
-			"build_s":               buildS,
-			"go_toolchain":          "go1.26.8 (overlay-patched runtime: seeded map order)",
-			"violation_signatures":  sigOrder,
+			"build_s":                  buildS,
+			"go_toolchain":             "go1.26.8 (overlay-patched runtime: seeded map order)",
+			"violation_signatures":     sigOrder,
 		}
 	}
 	fmt.Printf("property=%s engine=%s tier=%s seed=%d runs=%d nontrivial=%d distinct=%d steps=%d faults=%v wall=%.1fs build=%.1fs\n",
